@@ -329,12 +329,38 @@ def main(tier):
             evs.append({"e": "Sel", "cmd": " ".join(argv), "tool": "dgrep", "min": 12, "inm": dec, "sel": ["4 %s 2012" % dec in outl, "4 %s 2012" % nov in outl],
                         "want": [True, False], "rc": p.returncode})
             return evs
+        def run_names(job):
+            # every entry of every parse table, written into a line and found there by the scanner: the search window in front of the
+            # needle is derived from the shortest and longest name of the table, so each name (the first of its line too) must be reachable
+            a, tab = job
+            nms = locs[a][tab]
+            if not prefix_free(nms) or not all(x.strip() and not re.search(r"[\d%/.]", x) for x in nms):
+                return None
+            spec = {"lm": "%B", "am": "%b", "lw": "%A", "aw": "%a"}[tab]
+            if tab in ("lm", "am"):
+                fmt, lines, want = spec + "/%d %Y", ["x %s/04 2012 y" % n for n in nms], ["x 2012-%02d-04 y" % (i + 1) for i in range(12)]
+            else:
+                fmt, lines, want = spec + " %d.%m.%Y", ["x %s %02d.12.2012 y" % (n, 3 + i) for i, n in enumerate(nms)], ["x 2012-12-%02d y" % (3 + i) for i in range(7)]
+            argv = ["dconv"] + (["--from-locale", a] if a != "C" else []) + ["-S", "-i", fmt, "-f", "%F"]
+            p = core.run([b.tool("dconv")] + argv[1:], timeout=20, env={"LOCALE_FILE": locfile}, inp="".join(x + "\n" for x in lines))
+            outl = p.stdout.split("\n")
+            outl += [""] * (len(lines) - len(outl))
+            evs = [{"e": "Reset"}] + ([{"e": "SetI", "loc": a}] if a != "C" else [])
+            for i, n in enumerate(nms):
+                evs.append({"e": "Name", "cmd": " ".join(argv), "tool": "dconv-names", "tab": tab, "idx": i + 1, "inm": n, "got": outl[i], "want": want[i], "rc": p.returncode})
+            return evs
+        njobs = [(a, tab) for a in (sorted(locs) if not quick else sorted(locs)[::3] + ["C", "de_DE", "es_ES"]) if a in locs for tab in ("lm", "am", "lw", "aw")]
         with ThreadPoolExecutor(max_workers=core.NCPU) as ex:
             pexecs = list(ex.map(run_pair, pjobs))
+            nexecs = [e for e in ex.map(run_names, njobs) if e]
+            pexecs += nexecs
+            rep.notes["locale_name_runs"] = len(nexecs)
             pexecs += list(ex.map(run_sel, [a for a in ins if a == "C" or locs[a]["lm"][11] != locs[a]["lm"][10]]))
         rep.notes["locale_pair_runs"] = len(pexecs)
 
         def lkey(bad, ex):
+            if bad.get("e") == "Name":
+                return "locale dconv -S --from-locale: a name of the %s table is not found in a line" % bad.get("tab")
             if bad.get("e") == "Sel":
                 return "locale dgrep --from-locale: expression operand not read with the input locale"
             if bad.get("e") == "Conv":
